@@ -118,6 +118,9 @@ var c12Paths = []c12Path{
 	{Name: "100Mbit-50ms-q0.5bdp", Cap: 12500000, RTT: 50 * time.Millisecond, Queue: 312500, AckEvery: 2, QuicSize: 1280, Seed: 1200},
 	{Name: "10Gbit-1ms-q2bdp", Cap: 1250000000, RTT: time.Millisecond, Queue: 2500000, AckEvery: 10, QuicSize: 1280, Seed: 1280},
 	{Name: "64KBps-300ms-q4bdp", Cap: 65536, RTT: 300 * time.Millisecond, Queue: 78643, AckEvery: 1, QuicSize: 1280, Seed: 1280},
+	// a geostationary-satellite RTT: initial window / min RTT is below the 64 KB/s pacing floor
+	// (added after the seeded change C12-4: the floor dropped from the first-sample branch)
+	{Name: "2Mbit-800ms-q1bdp", Cap: 250000, RTT: 800 * time.Millisecond, Queue: 200000, AckEvery: 2, QuicSize: 1280, Seed: 1280},
 }
 
 // long fat path on which the real maximum window (20000 datagrams) is reachable
